@@ -38,7 +38,7 @@ def _variants(prop):
         patch = os.path.join(sd, name, "patch.rebased.diff")
         if not os.path.isfile(patch):
             patch = os.path.join(sd, name, "patch.diff")
-        out.append(("seed", name, patch))
+        out.append(("seed-unclaimed" if meta.get("declared_out_of_reach") else "seed", name, patch))
     td = os.path.join(HERE, "twins")
     for name in sorted(os.listdir(td)) if os.path.isdir(td) else []:
         mp = os.path.join(td, name, "meta.json")
@@ -95,11 +95,14 @@ def _run_variant(prop, repo_root, kind, name, patch):
         env = dict(os.environ, PYTHONDONTWRITEBYTECODE="1", VERIF_EVIDENCE_DIR=os.path.join(d, "_evidence"), VERIF_TIER="quick")
         p = subprocess.run([sys.executable, "-m", "sa.cli", prop, "--tier", "quick", "--repo", d], cwd=HERE, env=env, capture_output=True, text=True)
         viol = [l for l in p.stdout.splitlines() if l.startswith("  " + prop)]
+        seedlike = kind.startswith("seed")
         if p.returncode == 2:
             # an analysis error on a variant also means "not silently accepted"
-            return kind, name, ("detected" if kind == "seed" else "flagged"), "ANALYSIS-ERROR: " + (p.stdout.strip().splitlines() or [""])[-1][:200]
+            return kind, name, ("detected" if seedlike else "flagged"), "ANALYSIS-ERROR: " + (p.stdout.strip().splitlines() or [""])[-1][:200]
         if p.returncode == 1:
-            return kind, name, ("detected" if kind == "seed" else "flagged"), (viol[0].strip()[:240] if viol else "")
+            return kind, name, ("detected" if seedlike else "flagged"), (viol[0].strip()[:240] if viol else "")
+        if kind == "seed-unclaimed":
+            return kind, name, "not detected (declared out of reach in its meta.json; the property's level_note says so)", ""
         return kind, name, ("missed" if kind == "seed" else "silent"), ""
     finally:
         shutil.rmtree(d, ignore_errors=True)
@@ -121,6 +124,7 @@ def run(prop, repo_root):
             ok = False
     summary = {
         "seeds": sum(1 for r in res if r[0] == "seed"),
+        "seeds_declared_out_of_reach": sum(1 for r in res if r[0] == "seed-unclaimed"),
         "seeds_detected": sum(1 for r in res if r[0] == "seed" and r[2] == "detected"),
         "twins": sum(1 for r in res if r[0] == "twin"),
         "twins_silent": sum(1 for r in res if r[0] == "twin" and r[2] == "silent"),
